@@ -81,10 +81,12 @@ CHECKS = {
         rule=("scenario = random outstation (8 point types, random event variations/classes, per-type buffer sizes 0..100, tx 249..2048, unsolicited on/off, retry limits) x 4-18 operations from "
               "{1-5 uniquely time-stamped forced updates, READ by class/type/count-limited with a per-fragment follow-up action (right confirm, wrong sequence, wrong UNS, timeout, late confirm, aborting request, reconnect close/pre-empt, leave), "
               "ENABLE/DISABLE_UNSOLICITED, reaction to an outstanding unsolicited response (confirm right/wrong, timeout/retry, DISABLE, reconnect), restart-bit write, application flags, broadcast}; "
-              "ledger rules R0-R6 evaluated on every update result, every event object on the wire and every event_cleared callback; distinct = (profile, solicited/unsolicited, fragment number, follow-up action) tuples"),
+              "ledger rules R0-R6 evaluated on every update result, every event object on the wire and every event_cleared callback; "
+              "hook H6 audits the live buffer under the database's own mutex at every transaction, selection, response build and confirmation: list links both ways, free-slot accounting, total and written counters recomputed from the records, capacity, id order, overflow flag (rules L1-L4, A1-A6); distinct = (profile, solicited/unsolicited, fragment number, follow-up action) tuples"),
         runs=[dict(check="c03", scale=10, timeout_s=900)],
         required=["events_created", "overflows", "event_objects_attributed", "R1_release_justified", "R3_conservation_ok", "R4_order_ok", "R5_selection_prefix_ok", "R5_unsol_selection_ok",
-                  "confirms_with_expected_release", "sol_timeouts", "late_confirms", "aborts", "reconnect_close", "reconnect_preempt", "disable_during_unsol_wait", "reads_deferred", "unsol_retries"],
+                  "confirms_with_expected_release", "sol_timeouts", "late_confirms", "aborts", "reconnect_close", "reconnect_preempt", "disable_during_unsol_wait", "reads_deferred", "unsol_retries",
+                  "event_buffer_audits", "event_buffer_audits_at_clear_written", "event_buffer_audits_at_events_info", "event_buffer_audits_at_write_unsolicited"],
         thorough_scale=30.0,
         abnormal_exit_is_violation=True,
         assumptions=HARNESS_TRUST + ["event objects are attributed to ledger ids by (type, index, value, flags, time when the variation carries it); updates use unique timestamps"],
@@ -93,9 +95,11 @@ CHECKS = {
         level="exploration",
         rule=("same driver as C03 with a profile weighted to small buffers (overflow striking written and unwritten events), broadcasts of the three confirm modes, restart-bit writes and application flag flips; "
               "every freshly built response (solicited and unsolicited) has its IIN octets compared with the ledger: class bits, overflow, restart, broadcast, need-time/local-control/device-trouble/config-corrupt; "
+              "hook H6 audits the counters those bits are computed from against the buffer's records at every release of the database mutex (rules A1-A6, L1-L4); "
               "distinct = (profile, solicited/unsolicited, fragment number, follow-up action) tuples"),
         runs=[dict(check="c13", scale=10, timeout_s=900)],
-        required=["iin_checked", "class_bit_ok", "overflow_bit_set_ok", "restart_bit_ok", "app_bit_set_ok", "broadcast_bit_ok", "restart_writes", "broadcasts", "overflow_discarded_carried_event"],
+        required=["iin_checked", "class_bit_ok", "overflow_bit_set_ok", "restart_bit_ok", "app_bit_set_ok", "broadcast_bit_ok", "restart_writes", "broadcasts", "overflow_discarded_carried_event",
+                  "event_buffer_audits", "event_buffer_audits_at_clear_written", "event_buffer_audits_at_events_info"],
         thorough_scale=30.0,
         abnormal_exit_is_violation=True,
         assumptions=HARNESS_TRUST,
